@@ -269,6 +269,36 @@ prop(
     assumptions=["only the listed syntactic forms reach stdout/stderr from the package's own code (no reflection / unsafe tricks); dependencies are covered by the runtime capture only on the histories explored"],
 )
 
+FS_TB = [KERNEL, AXIOMS, TDIFF, HOOKS, "the operating system's directory semantics (O_EXCL create, rename replaces, unlink keeps an open inode alive) are modelled by lean/BloomVerif/Model/FSStore.lean and checked against a real temporary directory on every run",
+         "modelled, not verified: os.ReadDir ordering, file permissions, disk-full and I/O errors of the real filesystem"]
+
+prop(
+    "C16",
+    lean_modules=["BloomVerif.Lemmas.FSStore", "BloomVerif.Props.C16"],
+    technique="Lean 4 refinement proof (directory-with-inodes model of FileSystemDataStore refines a per-pointer specification for every disciplined call sequence) + proved counterexample for the full statement + call-by-call differential against the real store on a temporary directory with a scripted name draw",
+    design_ref="DESIGN.md section 4 C16",
+    text="Partial, with a known finding. Machine-checked: for every sequence of CreateFile (any name-draw script, collisions included), Write, Close, Abort, TombstoneFile, OpenFile in which a pointer is tombstoned only after its writer was closed or aborted, the directory refines the specification "
+         "(a scan lists exactly the published, untombstoned pointers with exactly their bytes; CreateFile never changes another pointer's files; TombstoneFile leaves neither .dat nor .tmp). The full statement is false of the unchanged code: tombstoning a pointer whose writer is still open frees the name, "
+         "a later CreateFile can draw it again, and the first writer's Close then renames over the second writer's file (theorem C16_counterexample; reproduced on the real store by the check; known finding). "
+         "The real store is driven through random sequences (disciplined and not) and must equal the model in every call result and in the final raw directory content.",
+    trusted_base=FS_TB,
+    assumptions=["single-threaded call sequences (calls of different writers interleave, but each call is atomic): the store's methods contain no shared mutable state beyond the directory"],
+)
+
+prop(
+    "C15",
+    lean_modules=["BloomVerif.Lemmas.Crash", "BloomVerif.Props.C15"],
+    technique="Lean 4 proof over a crash model (current view + durable view + per-inode synced length; process crash and power loss as relations) for every mutation boundary of the flush / failed-flush protocols + proved counterexamples for merges + crash-point enumeration on the real store (verifFS hook, every boundary reopened by a fresh engine) + strace syscall-shape conformance",
+    design_ref="DESIGN.md section 4 C15",
+    text="Partial, with a known finding. Machine-checked for any number and size of writes and any starting directory: at every mutation boundary of a flush, after a process crash or any power-loss state, the pointer's final name is absent, the empty reservation, or the complete file; after Close returned (before the acknowledgement) "
+         "every crash state holds the complete file; a failed flush (Abort then TombstoneFile) never leaves content. The statement is false for merges with FileSystemDataStore as MetaStore: the sources are removed one by one after the output is published and the removals are not fsynced "
+         "(theorems C15_merge_counterexample / C15_merge_power_loss_counterexample; reproduced on the real store; known finding). "
+         "The check records every filesystem mutation of random flush / failed-flush / merge histories, compares the model's current view with the real directory at every boundary, materialises every process-crash and power-loss state and queries it with a fresh engine; "
+         "a child process under strace must issue exactly the syscall sequence (O_EXCL creates, writes, fsync, rename, directory fsync, unlinks) of the model's protocols.",
+    trusted_base=FS_TB + ["strace's rendering of the syscall stream; the power-loss relation (per path: current or last directory-fsynced binding; per inode: any prefix at least as long as the fsynced length) is the model of what a POSIX filesystem may keep"],
+    assumptions=["the directory is used by one engine; a file's bytes are valid only when complete (the footer is written last; the scan rejects shorter prefixes - exercised by the reopen step, not proved)"],
+)
+
 QUERY_TB = [KERNEL, AXIOMS, TDIFF, HOOKS, "the auditing in-memory DataStore of the harness (per-handle open/seek/read/close log, use-after-close / concurrent-use / double-close detection, concurrent-read gauge, k-th-call faults)",
             "modelled, not verified: goroutine scheduling, channels, sync primitives and context of the query pipeline; the Lean models are hand-written and tied by differential / schedule exploration, not by the translator"]
 
